@@ -220,10 +220,18 @@ def per_cadence(item):
         market = sl.make_market(MARKET_DAYS, MARKET_SPEC)
         sl.write_market(d, market)
         handler, _ = sl.load_handler(d, market)
-        for label, entry, days, cfg in cadence_cfgs(item):
-            fails = check_cadence(label, entry, days, cfg, market, handler)
+        # a second handler over the same source that was GIVEN a universe (of the traded asset only): prices of every
+        # asset of the data source are still served, e.g. to signals kept on a non-traded indicator asset
+        from qstrader.asset.universe.static import StaticUniverse
+        from qstrader.data.backtest_data_handler import BacktestDataHandler
+        handler_u = BacktestDataHandler(StaticUniverse(['EQ:AAA']), data_sources=list(handler.data_sources))
+        runs = [(lab, e, dd, c, handler) for lab, e, dd, c in cadence_cfgs(item)]
+        runs += [(lab + '_handler_universe', e, dd, c, handler_u) for lab, e, dd, c in cadence_cfgs(item)
+                 if lab in ('static', 'before_start')]
+        for label, entry, days, cfg, hdl in runs:
+            fails = check_cadence(label.replace('_handler_universe', ''), entry, days, cfg, market, hdl)
             n += 1
-            labels.add((label.split('_', 1)[-1] if label.startswith('day') else label).replace('_listed_first', ''))
+            labels.add((label.split('_', 1)[-1] if label.startswith('day') else label).replace('_listed_first', '').replace('_handler_universe', ''))
             for f in fails:
                 f['case'] = {'part': 'cadence', 'label': label, 'entry': None if entry is None else entry.isoformat(),
                              'days': [x.isoformat() for x in days], 'cfg': cfg}
